@@ -21,6 +21,9 @@ func (f *frame) loopFrameAssume(li *loopInfo, keys []string, cur *State, reach T
 		return
 	}
 	for _, k := range keys {
+		if strings.HasPrefix(k, "GV:") {
+			continue // ghost visited sets are not memory
+		}
 		h1 := vc.heap(cur, k)
 		h0 := vc.heap(f.entry, k)
 		if h1.S == h0.S {
@@ -78,10 +81,16 @@ func (f *frame) loopFrameOblige(li *loopInfo, cond Term, st *State) {
 	// only the keys havocked at the header need re-establishing
 	sub := &State{H: map[string]Term{}, Alloc: st.Alloc, Base: st.Base}
 	for _, k := range li.frameKeys {
+		if strings.HasPrefix(k, "GV:") {
+			continue
+		}
 		sub.H[k] = f.vc.heap(st, k)
 	}
 	entry := &State{H: map[string]Term{}, Alloc: f.entry.Alloc, Base: f.entry.Base}
 	for _, k := range li.frameKeys {
+		if strings.HasPrefix(k, "GV:") {
+			continue
+		}
 		entry.H[k] = f.vc.heap(f.entry, k)
 	}
 	if sub.Base != entry.Base {
